@@ -12,7 +12,7 @@ class Group(object):
 
     def __init__(self, name, harness, targets, stubs=(), tier="quick", timeout_s=300, expect_hits=(), world="COORD",
                  setup=None, feas_ms=3000, prove_ms=20000, max_paths=20000, patches=True, must_fail=False, classify=None,
-                 serves=()):
+                 serves=(), label_filter=None):
         self.name = name
         self.harness = harness
         self.targets = list(targets)
@@ -29,6 +29,7 @@ class Group(object):
         self.must_fail = must_fail  # vacuity guard: a deliberately false clause that has to be refuted
         self.classify = classify
         self.serves = list(serves)
+        self.label_filter = label_filter
 
 
 def _group_main(group, conn):
@@ -36,7 +37,7 @@ def _group_main(group, conn):
         from . import engine
         res = engine.run_group(
             group.name, group.harness, stubs=group.stubs, patches=group.patches, feas_timeout_ms=group.feas_ms,
-            prove_timeout_ms=group.prove_ms, max_paths=group.max_paths, expect_stub_hits=group.expect_hits, setup=group.setup)
+            prove_timeout_ms=group.prove_ms, max_paths=group.max_paths, expect_stub_hits=group.expect_hits, setup=group.setup, label_filter=group.label_filter)
         from . import smt
         d = res.to_json()
         d["smt_stats"] = dict(smt.STATS)
